@@ -105,6 +105,12 @@ def unroll_table_loops(tree: ast.Module) -> int:
                         return ast.copy_location(copy.deepcopy(sub[n.id]), n)
                     return n
 
+                def visit_BinOp(self, n: ast.BinOp) -> ast.AST:      # noqa: N802
+                    self.generic_visit(n)
+                    if isinstance(n.op, ast.Add) and isinstance(n.left, ast.Constant) and isinstance(n.right, ast.Constant) and isinstance(n.left.value, str) and isinstance(n.right.value, str):
+                        return ast.copy_location(ast.Constant(value=n.left.value + n.right.value), n)          # 'readonly' + ' '
+                    return n
+
                 def visit_JoinedStr(self, n: ast.JoinedStr) -> ast.AST:      # noqa: N802
                     # f'{indent} {keyword}\n' with keyword := 'cc_x' is the f-string with that text in place
                     self.generic_visit(n)
@@ -126,6 +132,17 @@ def unroll_table_loops(tree: ast.Module) -> int:
         return all(isinstance(x, (ast.Name, ast.Attribute, ast.Constant, ast.Compare, ast.BoolOp, ast.UnaryOp, ast.Tuple, ast.Load, ast.And, ast.Or, ast.Not, ast.Is, ast.IsNot, ast.Eq, ast.NotEq,
                                   ast.In, ast.NotIn, ast.Lt, ast.LtE, ast.Gt, ast.GtE, ast.USub)) for x in ast.walk(e))
 
+    def _ok_body(body: List[ast.stmt]) -> bool:
+        for b in body:
+            if isinstance(b, ast.If):
+                if not (_pure(b.test) and _ok_body(b.body) and _ok_body(b.orelse)):
+                    return False
+            elif isinstance(b, ast.Expr) and isinstance(b.value, ast.Call) and isinstance(b.value.func, ast.Attribute) and isinstance(b.value.func.value, ast.Name) and b.value.func.attr in ('write', 'append'):
+                continue
+            else:
+                return False
+        return True
+
     def _local_table(stmts: List[ast.stmt], i: int, loop: ast.For) -> Optional[List[ast.AST]]:
         """`X = [(<pure>, ...), ...]` directly in front of `for ... in X:` whose body only tests and calls `<name>.write(...)`: the rows
         (attribute reads and comparisons, evaluated when the list is built) cannot be changed by such a body, so the loop is its unrolling"""
@@ -139,17 +156,13 @@ def unroll_table_loops(tree: ast.Module) -> int:
         if any(isinstance(x, ast.Name) and x.id == tgt.id for s_ in stmts[i + 1:] for x in ast.walk(s_)):
             return None
 
-        def ok_body(body: List[ast.stmt]) -> bool:
-            for b in body:
-                if isinstance(b, ast.If):
-                    if not (_pure(b.test) and ok_body(b.body) and ok_body(b.orelse)):
-                        return False
-                elif isinstance(b, ast.Expr) and isinstance(b.value, ast.Call) and isinstance(b.value.func, ast.Attribute) and isinstance(b.value.func.value, ast.Name) and b.value.func.attr in ('write', 'append'):
-                    continue
-                else:
-                    return False
-            return True
-        return list(val.elts) if ok_body(loop.body) else None
+        return list(val.elts) if _ok_body(loop.body) else None
+
+    def _inline_table(loop: ast.For) -> Optional[List[ast.AST]]:
+        rows = list(loop.iter.elts)          # type: ignore[attr-defined]
+        if not all(_pure(r) for r in rows):
+            return None
+        return rows if _ok_body(loop.body) else None
 
     def rewrite(stmts: List[ast.stmt]) -> None:
         nonlocal done
@@ -166,6 +179,9 @@ def unroll_table_loops(tree: ast.Module) -> int:
                 ex = expand(st)
                 if ex is None and i > 0 and isinstance(st.iter, ast.Name):
                     ex = expand(st, local_rows=_local_table(stmts, i, st))
+                if ex is None and isinstance(st.iter, (ast.Tuple, ast.List)) and st.iter.elts and len(st.iter.elts) <= 16 and all(isinstance(r, ast.Tuple) for r in st.iter.elts):
+                    # the table written in place: `for flag, word in ((self.a, 'x'), (self.b, 'y')):`
+                    ex = expand(st, local_rows=_inline_table(st))
                 if ex is not None:
                     stmts[i:i + 1] = ex
                     done += 1
